@@ -155,6 +155,9 @@ func loopback() {
 	calls := rep.Pick(6, 25)
 
 	for ci, cf := range cfgs {
+		if abortRun.Load() {
+			return
+		}
 		caselog.Log(map[string]any{"phase": "loopback", "cfg": cf})
 		srvs := make([]*udpSrv, cf.L)
 		for i := range srvs {
